@@ -1,9 +1,9 @@
 SPECIFICATION MCSpec
 CONSTANTS
   SetupIds = {1,2,3}
-  RegIds = {1,2}
-  FileIds = {1,2}
-  CliIds = {1,2}
+  RegIds = {1}
+  FileIds = {1}
+  CliIds = {1}
   SrvIds = {1,2,3}
   TrackObs = FALSE
   TrackDeps = FALSE
